@@ -63,7 +63,7 @@ Definition client_requirements (cfg : cconfig) (ins : list input) (st' : cstate)
     (is_cert c0 = true /\ cert_kind c0 = KIND_SM2 /\ N.land (cert_ku c0) KU_SIGN <> 0 /\
      is_cert c1 = true /\ cert_kind c1 = KIND_SM2 /\ N.land (cert_ku c1) KU_ENC <> 0) /\
     (* (ii) Verify returned a chain for both, at the configured time and name *)
-    (mem (cert_id c0) (c_trusted cfg) = true /\ mem (cert_id c1) (c_trusted cfg) = true) /\
+    (tmem c0 (c_trusted cfg) = true /\ tmem c1 (c_trusted cfg) = true) /\
     (* (iii) the ServerKeyExchange signature verifies under certificate 0 over THIS session's randoms and certificate 1 *)
     verify (cert_pub c0) sig (skx_payload cr sr c1) = true /\
     (* (iv) the pre-master secret went out encrypted to certificate 1's key, and nowhere else *)
@@ -157,7 +157,7 @@ Definition server_requirements (cfg : sconfig) (ins : list input) (st' : sstate)
     (s_auth cfg = 0 -> peer = []) /\
     (1 <= s_auth cfg -> processCertsFromClient cfg certs = Some peer) /\
     (s_auth cfg = 2 \/ s_auth cfg = 4 -> certs <> []) /\
-    (3 <= s_auth cfg -> certs <> [] -> mem (cert_id (nth_cert 0 certs)) (s_client_trusted cfg) = true) /\
+    (3 <= s_auth cfg -> certs <> [] -> tmem (nth_cert 0 certs) (s_client_trusted cfg) = true) /\
     (* proof of possession: CertificateVerify valid under the leaf's key over THIS transcript *)
     (peer <> [] -> peer = certs /\ verify (cert_pub (nth_cert 0 certs)) sig (THash (tlist tr_ckx)) = true) /\
     (* key exchange and Finished *)
@@ -167,12 +167,12 @@ Definition server_requirements (cfg : sconfig) (ins : list input) (st' : sstate)
     exists tr_tail, ss_tr st' = tr_fin ++ enc_hmsg (MFinished vd) :: tr_tail.
 
 Lemma processCerts_some : forall cfg certs peer, processCertsFromClient cfg certs = Some peer ->
-  peer = certs /\ (3 <= s_auth cfg -> certs <> [] -> mem (cert_id (nth_cert 0 certs)) (s_client_trusted cfg) = true).
+  peer = certs /\ (3 <= s_auth cfg -> certs <> [] -> tmem (nth_cert 0 certs) (s_client_trusted cfg) = true).
 Proof.
   intros cfg certs peer H. unfold processCertsFromClient in H.
   destruct (negb (forallb is_cert certs)); [discriminate|].
   destruct certs as [|c0 r]; [injection H as <-; split; [reflexivity|intros _ Hc; contradiction]|].
-  destruct ((3 <=? s_auth cfg) && negb (mem (cert_id c0) (s_client_trusted cfg))) eqn:E; [discriminate|].
+  destruct ((3 <=? s_auth cfg) && negb (tmem c0 (s_client_trusted cfg))) eqn:E; [discriminate|].
   destruct (_ || _); [|discriminate]. injection H as <-. split; [reflexivity|].
   intros Ha _. cbn. apply andb_false_iff in E. destruct E as [E|E].
   - apply N.leb_gt in E. lia.
@@ -383,7 +383,7 @@ Theorem authentication : forall AK own K cfg ins st',
   (* the network delivers only what it can derive *)
   (forall i, In i ins -> deliverable AK own K i) ->
   (* certification: the keys named in certificates that this client's Verify accepts are not attacker keys *)
-  (forall c, is_cert c = true -> mem (cert_id c) (c_trusted cfg) = true -> AK (cert_key c) = false) ->
+  (forall c, is_cert c = true -> tmem c (c_trusted cfg) = true -> AK (cert_key c) = false) ->
   (* the client's pre-master secret is its own, and honest parties never send it or a master secret derived from it
      except encrypted to an honest key / as a PRF key / under a hash *)
   own (c_pms cfg) = false ->
